@@ -493,6 +493,37 @@ def run(spec, res):
                         rtol=4 * np.finfo('f4').eps, atol=0):
                     p2.append('bpch2: %s differs from bpch1 (shapes %s / %s)'
                               % (k, a.shape, b.shape))
+            # the grid header both readers state is the one in the file
+            for att, want in (('halfpolar', spec['halfpolar']),
+                              ('center180', spec['center180']),
+                              ('modelname', spec['modelname'])):
+                for who, fx in (('bpch1', fs), ('bpch2', f2)):
+                    got = getattr(fx, att, None)
+                    if isinstance(got, bytes):
+                        got = got.decode()
+                    if isinstance(want, str):
+                        ok = str(got).strip() == want.strip()
+                    else:
+                        ok = got is not None and int(got) == int(want)
+                    if not ok:
+                        p2.append('%s: grid header %s = %r, the file says '
+                                  '%r' % (who, att, got, want))
+            for who, fx in (('bpch1', fs), ('bpch2', f2)):
+                mr = getattr(fx, 'modelres', None)
+                if mr is None or [float(x) for x in np.asarray(mr)] != [
+                        float(x) for x in spec['modelres']]:
+                    p2.append('%s: grid header modelres = %r, the file says '
+                              '%r' % (who, mr, spec['modelres']))
+            # and the latitude cells follow from it in the same way
+            for ck in ('latitude', 'latitude_bounds', 'longitude',
+                       'longitude_bounds'):
+                if ck in fs.variables.keys() and ck in f2.variables.keys():
+                    a = np.asarray(f2.variables[ck][...], 'f8')
+                    b = np.asarray(fs.variables[ck][...], 'f8')
+                    if a.shape != b.shape or not np.allclose(a, b, rtol=0,
+                                                             atol=1e-9):
+                        p2.append('bpch2: %s differs from bpch1 (%s / %s)'
+                                  % (ck, a.ravel()[:3], b.ravel()[:3]))
             problems += p2
             # the front end asked for its block-walking reader, unscaled
             from PseudoNetCDF.geoschemfiles import bpch
